@@ -204,7 +204,11 @@ def subm_header(rng, hidden=False):
     present = [f for f in SUBM_FIELDS if rng.random() < 0.5]
     rng.shuffle(present)
     for name, val in present:
-        lines.append(_anycase(rng, name) + b':' + rng.choice([b' ', b' ', b'', b'\t']) + val)
+        if rng.random() < 0.15:
+            # folded right behind the colon: the first line is exactly the field name
+            lines.append(_anycase(rng, name) + b':'); lines.append(rng.choice([b' ', b'\t']) + val)
+        else:
+            lines.append(_anycase(rng, name) + b':' + rng.choice([b' ', b' ', b'', b'\t']) + val)
     r = rng.random()
     if r < 0.08 and present:
         name, val = rng.choice(present)                      # duplicate: 550 "more than one"
